@@ -105,6 +105,77 @@ def check_module_state(site):
                         site=site, kind="module_state_changed", changed=changed[:10])
 
 
+# ------------------------------------------------------------------- pristine-process oracle
+
+class Zygote(object):
+    """A child process forked before this process has made any library call.  For every
+    request it forks a grandchild that evaluates one call in that pristine module state and
+    sends back the frozen result.  'Calling a function ... in any order relative to other
+    calls returns equal results': the result obtained here, after thousands of other calls,
+    must equal the result obtained in a process that has made no other call."""
+
+    def __init__(self):
+        import os
+        import pickle
+        self.os, self.pickle = os, pickle
+        r1, w1 = os.pipe()      # requests  parent -> zygote
+        r2, w2 = os.pipe()      # answers   grandchild -> parent
+        pid = os.fork()
+        if pid == 0:
+            os.close(w1)
+            os.close(r2)
+            self._serve(os.fdopen(r1, "rb"), w2)
+            os._exit(0)
+        os.close(r1)
+        os.close(w2)
+        self.pid = pid
+        self.req = os.fdopen(w1, "wb")
+        self.ans = os.fdopen(r2, "rb")
+
+    def _serve(self, req, w2):
+        os, pickle = self.os, self.pickle
+        while True:
+            try:
+                case = pickle.load(req)
+            except EOFError:
+                return
+            gpid = os.fork()
+            if gpid == 0:
+                try:
+                    try:
+                        out = ("ok", freeze(_invoke(case)[3]()))
+                    except Exception as e:
+                        out = ("exc", type(e).__name__)
+                    data = pickle.dumps(out)
+                except BaseException as e:      # unpicklable result etc.
+                    data = pickle.dumps(("harness", repr(e)))
+                with os.fdopen(w2, "wb", closefd=False) as f:
+                    f.write(len(data).to_bytes(4, "big") + data)
+                os._exit(0)
+            os.waitpid(gpid, 0)
+
+    def evaluate(self, case):
+        self.pickle.dump(case, self.req)
+        self.req.flush()
+        n = int.from_bytes(self.ans.read(4), "big")
+        return self.pickle.loads(self.ans.read(n))
+
+    def close(self):
+        try:
+            self.req.close()
+            self.os.waitpid(self.pid, 0)
+        except Exception:
+            pass
+
+
+_ZYGOTE = {"z": None}
+
+
+def start_zygote():
+    if _ZYGOTE["z"] is None:
+        _ZYGOTE["z"] = Zygote()
+
+
 # ------------------------------------------------------------------- call clause
 
 def _invoke(case, built=None):
@@ -191,6 +262,17 @@ def body_call(case):
         raise Violation("%s left two equal objects in different states" % site, site=site,
                         kind="repeat_differs")
     labels = [site]
+    z = _ZYGOTE["z"]
+    if z is not None and not spec.mutator:
+        kind, val = z.evaluate({k: case[k] for k in ("f", "self", "args", "kwargs")})
+        if kind == "harness":
+            raise RuntimeError("pristine-process oracle failed: %s" % val)
+        if kind == "exc" or val != r1:
+            raise Violation("%s returned %r in this process (which has made other calls before) but %s in a "
+                            "pristine process that made no other call: the result depends on the history "
+                            "of calls" % (site, res, ("raised " + val) if kind == "exc" else repr(val)),
+                            site=site, kind="history_dependent")
+        labels.append("pristine_process_compared")
     warm = case.get("warm")
     if warm is not None:
         _check_reuse(case, warm, spec, site, r1)
@@ -209,6 +291,13 @@ def _reload(dst, src_enc, src_obj):
         return True
     if isinstance(dst, Epoch) and isinstance(src_obj, Epoch):
         dst.set(src_obj)
+        return True
+    if type(dst).__name__ == "Earth" and type(src_obj).__name__ == "Earth" \
+            and isinstance(src_enc, dict) and "$o" in src_enc:
+        if src_enc["a"]:
+            dst.set(dec(src_enc["a"][0]))
+        else:
+            dst.set(dec({"$tbl": "Earth.WGS84"}))
         return True
     if isinstance(dst, (Interpolation, CurveFitting)) and type(dst) is type(src_obj) \
             and isinstance(src_enc, dict) and "$o" in src_enc:
@@ -407,6 +496,9 @@ def body_history(case):
     sA = [a() for a in A]
     E = [Epoch(j) for j in case["epochs"]]
     sE = [e.jde() for e in E]
+    for e0, j0 in zip(sE, case["epochs"]):
+        if abs(e0 - j0) > 1e-8:
+            raise Violation("Epoch(%r).jde() = %r" % (j0, e0), site="history:init", kind="wrong_value")
     xs, ys = case["table"]
     IP = [Interpolation(list(xs), list(ys))]
     sIP = [(list(xs), list(ys))]
@@ -437,11 +529,43 @@ def body_history(case):
                 raise Violation("after step %d (%s) pooled Interpolation #%d changed"
                                 % (step_no, step["op"], idx), site="history:" + step["op"],
                                 kind="shared_or_mutated_state", step=step_no)
+        # observational equivalence with fresh objects of the same value (every view: a view that
+        # caches, or a mutator that forgets to invalidate, shows here)
+        for idx, (a, sv) in enumerate(zip(A, sA)):
+            f = Angle(sv)
+            f.set_tolerance(a.get_tolerance())
+            got = (a.rad(), a.get_ra(), a.dms_tuple(), a.ra_tuple(), float(a), int(a), str(a),
+                   a.dms_str(n_dec=3), a.ra_str(False, 2))
+            want = (f.rad(), f.get_ra(), f.dms_tuple(), f.ra_tuple(), float(f), int(f), str(f),
+                    f.dms_str(n_dec=3), f.ra_str(False, 2))
+            if got != want:
+                raise Violation("after step %d (%s) pooled Angle #%d (value %r) shows views %r, a fresh "
+                                "Angle of the same value shows %r" % (step_no, step["op"], idx, sv, got, want),
+                                site="history:" + step["op"], kind="history_dependent", step=step_no)
+        for idx, (e, sv) in enumerate(zip(E, sE)):
+            f = Epoch(sv)
+            got = (e.jde(), e.get_full_date(), e.mjd(), e.dow(), e.mean_sidereal_time(), e.year(), e.doy(),
+                   e.leap(), e.julian(), str(e))
+            want = (f.jde(), f.get_full_date(), f.mjd(), f.dow(), f.mean_sidereal_time(), f.year(), f.doy(),
+                    f.leap(), f.julian(), str(f))
+            if got != want:
+                raise Violation("after step %d (%s) pooled Epoch #%d (JDE %r) shows views %r, a fresh "
+                                "Epoch of the same value shows %r" % (step_no, step["op"], idx, sv, got, want),
+                                site="history:" + step["op"], kind="history_dependent", step=step_no)
         for g, fz in ghosts:
             if freeze(g) != fz:
                 raise Violation("after step %d (%s) an object replaced earlier changed from %r to %r"
                                 % (step_no, step["op"], fz, freeze(g)), site="history:" + step["op"],
                                 kind="shared_or_mutated_state", step=step_no)
+
+    def epoch_shadow(e, intended, n, op):
+        # an Epoch re-derives its JDE from the calendar date (C02 allows 1e-8 day); the
+        # shadow is what the object holds right after the mutator, checked against the intent
+        got = e.jde()
+        if abs(got - intended) > 1e-8:
+            raise Violation("step %d (%s): Epoch holds %r, intended %r" % (n, op, got, intended),
+                            site="history:" + op, kind="wrong_value", step=n)
+        return got
 
     for n, step in enumerate(steps):
         op = step["op"]
@@ -459,11 +583,11 @@ def body_history(case):
         elif op == "copy_epoch":
             src = E[i % len(E)]
             E.append(Epoch(src))
-            sE.append(sE[i % (len(E) - 1)])
+            sE.append(epoch_shadow(E[-1], sE[i % (len(E) - 1)], n, op))
             ncopy += 1
         elif op == "new_epoch":
             E.append(Epoch(step["jde"]))
-            sE.append(step["jde"])
+            sE.append(epoch_shadow(E[-1], step["jde"], n, op))
         elif op == "angle_to_positive":
             ii = i % len(A)
             A[ii].to_positive()
@@ -509,17 +633,17 @@ def body_history(case):
             d = step.get("days", 1.0)
             e += d
             E[ii] = e
-            sE[ii] = (Epoch(sE[ii]) + d).jde()
+            sE[ii] = epoch_shadow(e, sE[ii] + d, n, op)
             nmut += 1
         elif op == "epoch_set":
             ii = i % len(E)
             E[ii].set(step["jde"])
-            sE[ii] = step["jde"]
+            sE[ii] = epoch_shadow(E[ii], step["jde"], n, op)
             nmut += 1
         elif op == "epoch_set_from":
             ii, jj = i % len(E), j % len(E)
             E[ii].set(E[jj])
-            sE[ii] = sE[jj]
+            sE[ii] = epoch_shadow(E[ii], sE[jj], n, op)
             nmut += 1
             ncopy += 1
         elif op == "interp_call":
@@ -673,6 +797,23 @@ def _oor_table():
         "interp_outside": lambda u: Interpolation([1, 2, 3], [1, 4, 9])(3.001 + u),
         "interp_outside_low": lambda u: Interpolation([1, 2, 3], [1, 4, 9]).derivative(0.999 - u),
         "interp_duplicate": lambda u: Interpolation([1, 1, 3 + u], [1, 4, 9]),
+        # wrong arity (too few values for a date / an angle, missing or extra positional arguments):
+        # TypeError or ValueError.  (Unequal x/y lists and an odd flat sequence for Interpolation /
+        # CurveFitting are *not* here: the code deliberately trims them, see its comments.)
+        "arity_obliquity_tuple2": lambda u: Co.mean_obliquity((1987, 4)),
+        "arity_obliquity_tuple1": lambda u: Co.true_obliquity((2000.0 + int(u),)),
+        "arity_obliquity_tuple0": lambda u: Co.true_obliquity(()),
+        "arity_nutation_list2": lambda u: Co.nutation_longitude([2000, "Jan"]),
+        "arity_nutation_two_args": lambda u: Co.nutation_obliquity(2000, 1),
+        "arity_check_input_date_tuple2": lambda u: Epoch.check_input_date((2000, 1)),
+        "arity_check_input_date_list1": lambda u: Epoch.check_input_date([2000 + int(u)]),
+        "arity_epoch_tuple2": lambda u: Epoch((2000, 1)),
+        "arity_epoch_list1": lambda u: Epoch([2000]),
+        "arity_epoch_set_two": lambda u: Epoch(2451545.0).set(2000, 1),
+        "arity_angle_empty_list": lambda u: Angle([]),
+        "arity_angle_empty_tuple": lambda u: Angle(()),
+        "arity_missing_positional": lambda u: Co.angular_separation(Angle(1.0), Angle(2.0), Angle(3.0 + u)),
+        "arity_extra_positional": lambda u: Co.kepler_equation(0.1, Angle(5.0), u),
         "kepler_e_one": lambda u: Co.kepler_equation(1.0 + u, Angle(10.0)),
         "kepler_e_negative": lambda u: Co.kepler_equation(-0.001 - u, Angle(10.0)),
     }
@@ -828,7 +969,7 @@ def tasks(tier, seed):
     out = []
     nsh = 14
     for sh in range(nsh):
-        out.append(Task("t_call", shard=sh, nsh=nsh, per=90 * mult))
+        out.append(Task("t_call", shard=sh, nsh=nsh, per=60 * mult))
     for sh in range(4):
         out.append(Task("t_illtyped", shard=sh, nsh=4))
     out.append(Task("t_outofrange", n=20 * mult))
@@ -838,6 +979,7 @@ def tasks(tier, seed):
 
 
 def t_call(rec, shard, nsh, per):
+    start_zygote()          # before any library call is made in this process
     keys = sorted(API)[shard::nsh]
     # one Hypothesis run per callable so that every callable gets its share of cases and
     # several failing callables are reported separately
